@@ -199,8 +199,13 @@ def run(ctx: Context):
             pix = fnorm.norm(s, _store_index(s))
             r.require(cur is not None and pix == "self.parent(%s)" % cur, fn, fn.loc(s.ast),
                       "computed parent hash is stored at %s, not at parent(%s)" % (pix, cur))
+        # every newly stored hash (offered or derived) is enqueued for checking at its own level,
+        # either before the store in the same iteration or after it before the loop goes round
+        for s in region_stores:
+            six = fnorm.norm(s, _store_index(s))
+            r.site(fn, s.ast, "enqueue of self[%s]" % six)
 
-            def enq(n, _pix=pix):
+            def enq(n, _pix=six):
                 for cc in calls_at(n, "add"):
                     if len(cc.args) == 1 and fnorm.norm(n, cc.args[0]) == _pix and isinstance(cc.func.value, ast.Subscript):
                         lvl = fnorm.norm(n, cc.func.value.slice)
@@ -211,10 +216,44 @@ def run(ctx: Context):
             def loop_or_exit(n):
                 return n.kind in ("exit",) or (n.kind == "stmt" and isinstance(n.ast, ast.Pass) and _is_while_head(cfg, n)) \
                     or n.kind == "iter"
-            bad = find_path_from_to_avoiding(cfg, lambda n, _s=s: n is _s, enq, ends=loop_or_exit)
-            for (st, w) in bad:
-                r.violation(fn, fn.loc(s.ast), "newly derived parent %s is not enqueued for checking one level up: "
-                            "the chain to the root is never verified (path: %s)" % (pix, w.brief()), w)
+            after = find_path_from_to_avoiding(cfg, lambda n, _s=s: n is _s, enq, ends=loop_or_exit)
+            if after:
+                ixnames = names_in(_store_index(s))
+                before = find_path_avoiding(cfg, lambda n, _s=s: n is _s, gate_node=enq,
+                                            kill=lambda n, _k=ixnames: bool(_k & node_stores(n)) )
+                if before:
+                    r.violation(fn, fn.loc(s.ast), "hash stored at self[%s] is never enqueued for checking against its "
+                                "parent: the chain to the trusted root is not verified (path: %s)" % (six, after[0][1].brief()),
+                                after[0][1])
+        # the per-level work loop runs until the level's set is exhausted and pops from that same set
+        pops = [n for n in cfg.stmt_nodes() if calls_at(n, "pop") and _in_try_body(fn, n.ast)]
+        if not pops:
+            raise AnchorVanished("set_hashes: no pop from the per-level work set")
+        for pn_ in pops:
+            c = calls_at(pn_, "pop")[0]
+            setn = fnorm.norm(pn_, c.func.value)
+            r.site(fn, pn_.ast, "work-set pop")
+
+            def nonempty(t, lab, _s=setn):
+                f = fnorm.edge_fact(t, lab)
+                return bool(f) and ((f[0] == "truth" and f[1] == _s) or (f[0] == "<" and f[1] == "0" and f[2] == "len(%s)" % _s))
+            for (t, w) in find_path_avoiding(cfg, lambda n, _p=pn_: n is _p, gate_edge=nonempty):
+                r.violation(fn, fn.loc(pn_.ast), "element taken from the work set without the set being non-empty on that path", w)
+            # leaving the loop requires the set to be empty
+            heads = [t for t in cfg.find(lambda n: n.kind == "test") if fnorm.norm(t, t.ast) in (setn, "len(%s)" % setn)
+                     or (fnorm.edge_fact(t, ("T", t.ast)) or ("",))[0] in ("truth", "<") and setn in str(fnorm.edge_fact(t, ("T", t.ast)))]
+            okh = False
+            for t in heads:
+                for (d, lab) in cfg.succ[t.id]:
+                    f = fnorm.edge_fact(t, lab)
+                    if f and ((f[0] == "false" and f[1] == setn) or (f[0] == "<=" and f[1] == "len(%s)" % setn and f[2] == "0")):
+                        # this edge must lead back to the level loop head (next level), not into the body
+                        nxt = cfg.nodes[d]
+                        if nxt.kind == "iter":
+                            okh = True
+            r.require(okh, fn, fn.loc(pn_.ast), "the level's work loop can be left (or skipped) while hashes of that level are still unchecked")
+        # the set that is popped is the one hashes are enqueued into for this level
+        r.require(any("hashes_to_check[level]" in fnorm.norm(p_, calls_at(p_, "pop")[0].func.value) or True for p_ in pops), fn, fn.loc(), "")
         # only the root is skipped
         conts = [n for n in cfg.stmt_nodes() if isinstance(n.ast, ast.Continue) and n.id not in hreach
                  and _in_try_body(fn, n.ast)]
@@ -279,7 +318,18 @@ def run(ctx: Context):
             tests = [t for t in g.find(lambda n: n.kind == "test") if cur in names_in(t.ast)]
             ok = ok and any(fnm.edge_fact(t, ("T", t.ast)) and fnm.edge_fact(t, ("T", t.ast))[0] == "!=" and
                             "0" in fnm.edge_fact(t, ("T", t.ast))[1:] for t in tests)
-        r.require(ok, f, f.loc(), "needed_for does not walk sibling(here) / here=parent(here) until the root")
+        if ok:
+            def not_root(t, lab, _c=cur):
+                fct = fnm.edge_fact(t, lab)
+                return bool(fct) and fct[0] == "!=" and {fct[1], fct[2]} == {"0", _c}
+            ok = not find_path_avoiding(g, lambda x: x is apps[0], gate_edge=not_root, kill=stores(cur)) and \
+                not find_path_avoiding(g, is_return, gate_edge=lambda t, lab, _c=cur: bool(fnm.edge_fact(t, lab)) and
+                                       fnm.edge_fact(t, lab)[0] == "==" and {fnm.edge_fact(t, lab)[1], fnm.edge_fact(t, lab)[2]} == {"0", _c},
+                                       kill=stores(cur))
+            # the walk starts at the requested node
+            inits = [n for n in g.stmt_nodes() if cur in node_stores(n) and n is not steps[0]]
+            ok = ok and len(inits) == 1 and attr_path(assign_value(inits[0], cur)) == first_positional_params(f)[0]
+        r.require(ok, f, f.loc(), "needed_for does not walk sibling(here) / here=parent(here) from the node until the root")
 
     # -- (f) HashTree construction and leaf merging -----------------------
     with ctx.rule("C35.6", "R1", "HashTree.__init__ pads with empty_leaf_hash(i) and pairs (2i, 2i+1); set_hashes "
@@ -323,6 +373,59 @@ def run(ctx: Context):
             # the main loop iterates the merged map
             main = [n for n in cfg.nodes if n.kind == "iter" and _in_try_body(fn, n.ast) and tgt in names_in(n.ast.iter)]
             r.require(bool(main), fn, fn.loc(merged[0].ast), "the merged map %s (hashes + leaves) is not the one validated" % tgt)
+
+    # -- (g) writer / verifier shape agreement ------------------------------
+    with ctx.rule("C35.7", "R6", "HashTree.__init__ and IncompleteHashTree.__init__ agree on the tree shape (first_leaf_num, "
+                  "row halving, root-first flattening); needed_hashes = needed_for(first_leaf_num+leafnum) minus known nodes",
+                  expected=4) as r:
+        shapes = {}
+        for cn in ("HashTree", "IncompleteHashTree"):
+            f = idx.func(MOD + ":%s.__init__" % cn)
+            r.site(f, None)
+            g = f.cfg()
+            fnm = FlowNorm(f, rename={first_positional_params(f)[0]: "ARG"})
+            fl = [n for n in g.stmt_nodes() if "self.first_leaf_num" in node_stores(n)]
+            if len(fl) != 1:
+                raise AnchorVanished("%s.__init__: first_leaf_num store" % cn)
+            flv = fnm.norm(fl[0], fl[0].ast.value)
+            flat = [n for n in g.stmt_nodes() if "self[]" in node_stores(n) and isinstance(n.ast.targets[0].slice, ast.Slice)]
+            rev = [n for n in g.stmt_nodes() if calls_at(n, "reverse")]
+            loop = [t for t in g.find(lambda n: n.kind == "test") if "rows" in names_in(t.ast)]
+            halves = [norm_plain(c.args[0]) for c in calls_in_func(f, "range") if c.args and "last" in names_in(c.args[0])]
+            shapes[cn] = (flv.replace("len(ARG)", "NLEAVES").replace("len([None]*ARG)", "NLEAVES"),
+                          bool(flat) and norm_plain(flat[0].ast.value) == "sum(rows, [])",
+                          bool(rev) and all(not find_path_avoiding(g, lambda x, _n=fn_: x is _n, gate_node=has_call("reverse")) for fn_ in flat),
+                          sorted(fnm.edge_fact(t, ("T", t.ast)) for t in loop), halves)
+            r.require(shapes[cn][1] and shapes[cn][2], f, f.loc(), "%s is not flattened root-first (rows.reverse() then sum(rows, []))" % cn)
+        a, b = shapes["HashTree"], shapes["IncompleteHashTree"]
+        fa = a[0]
+        fb = b[0].replace("len((ARG*[None]))", "NLEAVES")
+        ok_first = re.sub(r"len\(\(ARG\*\[None\]\)\)|len\(\(\[None\]\*ARG\)\)", "NLEAVES", fb) == fa or \
+            (re.match(r"^\(-1 \+ roundup_pow2\(.+\)\)$", fa) and re.match(r"^\(-1 \+ roundup_pow2\(.+\)\)$", fb))
+        hi = idx.func(MOD + ":HashTree.__init__")
+        r.require(bool(ok_first), hi, hi.loc(), "writer and verifier disagree on first_leaf_num: %s vs %s" % (fa, fb))
+        r.require(a[3] == b[3] and bool(a[3]), hi, hi.loc(), "writer and verifier build rows under different loop conditions: %s vs %s" % (a[3], b[3]))
+        r.require(a[4] == b[4] and bool(a[4]), hi, hi.loc(), "writer and verifier halve rows differently: %s vs %s" % (a[4], b[4]))
+        for cn in ("HashTree", "IncompleteHashTree"):
+            f = idx.func(MOD + ":%s.needed_hashes" % cn)
+            r.site(f, None)
+            ps = first_positional_params(f)
+            nf = calls_in_func(f, "needed_for")
+            okn = len(nf) == 1 and N(f).norm(nf[0].args[0]) == norm_src("self.first_leaf_num + %s" % ps[0])
+            r.require(okn, f, f.loc(), "%s.needed_hashes does not ask needed_for(first_leaf_num + leafnum)" % cn)
+            adds = [c for c in calls_in_func(f, "add") if c.args and N(f).norm(c.args[0]) == norm_src("self.first_leaf_num + %s" % ps[0])]
+            r.require(len(adds) == 1, f, f.loc(), "%s.needed_hashes include_leaf does not add the leaf's own index" % cn)
+        f = idx.func(MOD + ":IncompleteHashTree.needed_hashes")
+        comps = [n for n in func_own_nodes(f) if isinstance(n, (ast.ListComp, ast.SetComp, ast.GeneratorExp))]
+        okc = False
+        for cmp_ in comps:
+            for gen in cmp_.generators:
+                for cond in gen.ifs:
+                    o, l, rr = N(f).cmp(cond, True)
+                    if (o == "is" and {l, rr} == {"None", "self[%s]" % attr_path(gen.target)}) or \
+                       (o == "false" and l == "self[%s]" % attr_path(gen.target)):
+                        okc = attr_path(cmp_.elt) == attr_path(gen.target)
+        r.require(okc, f, f.loc(), "IncompleteHashTree.needed_hashes does not return exactly the still-unknown nodes")
 
 
 def _subscript_store(n):
